@@ -178,8 +178,10 @@ def main():
     items += wasmgen.programs("int", nprog, SEED, args_per_prog=5 if tier == "quick" else 8)
     builds = [{"name": "gcc-O1", "cc": "gcc", "cflags": ("-O1",)},
               {"name": "gcc-O1-nobuiltin", "cc": "gcc", "cflags": ("-O1", "-D__has_builtin(x)=0")}]
+    # clang selects other builtins than gcc in the runtime header
+    builds.append({"name": "clang-O2", "cc": "clang", "cflags": ("-O2",)})
     if tier != "quick":
-        builds.append({"name": "clang-O2", "cc": "clang", "cflags": ("-O2",)})
+        builds.append({"name": "clang-O0-nobuiltin", "cc": "clang", "cflags": ("-O0", "-D__has_builtin(x)=0")})
     st, exp = machine.replay(v, items, builds, sigfn=sig)
     th.join()
     tlc_ok(wc, "WordCheck")
